@@ -10,7 +10,8 @@ One transformation at a time is applied to a library-written base file (an indep
   WAV    unknown chunk (even / odd size) between `fmt ` and `data`; LIST chunk behind `data`; `fmt ` chunk of 18 bytes (cbSize 0); both at once
   AIFF   SSND offset k (k bytes of junk in front of the samples); ANNO chunk in front of SSND; COMM BEHIND SSND
   CAF    `free` chunk in front of `data`;   W64  an unknown GUID chunk in front of `data`;   SVX  ANNO chunk in front of BODY
-  RF64   JUNK chunk between `fmt ` and `data`
+  RF64   JUNK chunk between `fmt ` and `data`;   VOC  an ASCII text block (20 / 300 bytes) or a repeat block in front of the sound block;
+  NIST   a header of 2048 bytes
 A transformed file counts only if the reference route (virtual I/O) accepts it AND delivers the frame count and the samples of the
 base file -- so the transformation itself is validated by the library, not trusted.  Then: path, fd (close_desc 0 / 1), embedded at
 37 with junk behind (whitelisted containers), and for WAV / AIFF / AU with sample-granular encodings the non-seekable pipe (whole,
@@ -198,7 +199,25 @@ def rf64_variants(b):
     return [("junk-before-data", nb)]
 
 
-VARIANTS = {0x03: au_variants, 0x01: wav_variants, 0x13: wav_variants, 0x02: aiff_variants, 0x06: svx_variants, 0x18: caf_variants,
+def voc_variants(b):
+    if b[:19] != b"Creative Voice File" or len(b) < 27:
+        return []
+    first = int.from_bytes(b[20:22], "little")
+    out = []
+    for n in (20, 300):            # a text block the reader copies (< 255 bytes) / steps over with "j" (larger)
+        blk = b"\x05" + int(n).to_bytes(3, "little") + junk(n - 1) + b"\0"
+        out.append(("text%d-before-sound" % n, b[:first] + blk + b[first:]))
+    out.append(("repeat-before-sound", b[:first] + b"\x06" + (2).to_bytes(3, "little") + b"\x01\x00" + b[first:]))
+    return out
+
+
+def nist_variants(b):
+    if b[:8] != b"NIST_1A\n" or len(b) < 1024 or b[8:16] != b"   1024\n":
+        return []
+    return [("header2048", b[:8] + b"   2048\n" + b[16:1024] + b" " * 1024 + b[1024:])]
+
+
+VARIANTS = {0x08: voc_variants, 0x07: nist_variants, 0x03: au_variants, 0x01: wav_variants, 0x13: wav_variants, 0x02: aiff_variants, 0x06: svx_variants, 0x18: caf_variants,
             0x0B: w64_variants, 0x22: rf64_variants}
 
 
